@@ -25,7 +25,7 @@ def handle (op : String) (c i : Json) : Except String (Json × String) := do
   | "seeds" =>
     let m := J.obj [("same", Json.bool true)]
     let same ← J.bool (← J.key i "same")
-    pure (m, if same then "ok" else "fail: the exported bytes depend on the interpreter's hash seed")
+    pure (m, if same then "ok" else "fail: the exported bytes depend on the interpreter's hash seed or on what the process exported before")
   | _ => throw s!"C14: unknown op {op}"
 
 end D14
